@@ -2,7 +2,7 @@
    the first matching one of the SORTED expanded usages: the choice is independent of the
    order in which the hash set yields them, for every set of usages and every matcher. *)
 From Coq Require Import List String Bool Permutation.
-From RashV Require Import OrderProofs.
+From RashV Require Import Order OrderProofs.
 Import ListNotations.
 
 Theorem C09_sorted_choice_is_order_independent :
